@@ -224,22 +224,18 @@ Full statement (C11, first sentence) over the mechanism model — FALSE for the 
         (pages.map (·.hits)).flatten = sortKeys lt matched ∧ … ∧
         page lt Limits.real matched none (matched.length + 5) = .ok ⟨sortKeys lt matched, none, matched.length⟩
 
-What is proved (`walk_complete_partial`) needs three hypotheses, each excluding one behaviour of the
-code, each with a negative witness below:
+What is proved (`walk_complete_partial`) needs two hypotheses, each excluding one behaviour of the
+code, each with a negative witness below (a third one, `limit ≤ MAX_CANDIDATE_SIZE`, was needed until
+the repair 7ad6649 in /repo; the old cut is kept as `pageLegacy` with `legacy_large_limit_truncates`):
 * `hrec`  — the key survives `encode_cursor`/`decode_cursor` (fails for f64 sort values that
             serde_json does not parse back exactly: `walk_breaks_when_key_not_roundtripped`);
-* `hlc`   — `limit ≤ MAX_CANDIDATE_SIZE` (`large_limit_truncates`);
 * `hn`    — at most `MAX_CURSOR_ADVANCE + 1` matches (documented bound: deeper walks end in an
             error, `deep_walk_aborts`).
 The order-theoretic core holds without any of them: `keyset_walk_complete`.
 -/
 
-/-- **walk_complete_partial** — for any strict total order on the keys and any page size ≥ 1
-(within the two limits, keys surviving the cursor codec): following `next` from the first request
-until it is absent never fails, the pages concatenate to exactly the sorted matches (every match
-once, in order), every response reports the exact total, and `next` is absent exactly on the last
-page (all earlier pages are full). -/
-theorem walk_complete_partial (h : StrictTotal lt) (cfg : Limits) (hcfg : cfg.maxAdvance < u32Max)
+/-- the walk theorem for a limit within the fetch cap -/
+theorem walk_complete_small_limit (h : StrictTotal lt) (cfg : Limits) (hcfg : cfg.maxAdvance < u32Max)
     (recode : κ → κ) (matched : List κ) (hnd : matched.Nodup) (hrec : ∀ k ∈ matched, recode k = k)
     (limit : Nat) (hl : 0 < limit) (hlc : limit ≤ cfg.maxCandidates)
     (hn : matched.length ≤ cfg.maxAdvance + 1) :
@@ -261,16 +257,59 @@ theorem walk_complete_partial (h : StrictTotal lt) (cfg : Limits) (hcfg : cfg.ma
       (by omega)
   exact ⟨pages, hw, hflat, htot, hshape⟩
 
+
+/-- a limit above the fetch cap behaves exactly like the cap (reader.rs since 7ad6649) -/
+theorem page_min (cfg : Limits) (matched : List κ) (cur : Option (Cur κ)) (limit skipped : Nat) :
+    page lt cfg matched cur limit skipped = page lt cfg matched cur (min limit cfg.maxCandidates) skipped := by
+  unfold page
+  have : min (min limit cfg.maxCandidates) cfg.maxCandidates = min limit cfg.maxCandidates := by omega
+  rw [this]
+
+theorem walkPages_min (cfg : Limits) (recode : κ → κ) (matched : List κ) (limit : Nat) :
+    ∀ (fuel : Nat) (cur : Option (Cur κ)),
+      walkPages lt cfg recode matched limit fuel cur =
+        walkPages lt cfg recode matched (min limit cfg.maxCandidates) fuel cur := by
+  intro fuel
+  induction fuel with
+  | zero => intro cur; rfl
+  | succ fuel ih =>
+    intro cur
+    rw [walkPages, walkPages, ← page_min]
+    cases hp : page lt cfg matched cur limit with
+    | error e => rfl
+    | ok r =>
+      simp only
+      cases hn : r.next with
+      | none => rfl
+      | some c => simp only; rw [ih]
+
+/-- **walk_complete_partial** — for any strict total order on the keys and ANY page size ≥ 1
+(also above `MAX_CANDIDATE_SIZE`: the page size is then the cap): following `next` from the first
+request until it is absent never fails, the pages concatenate to exactly the sorted matches (every
+match once, in order), every response reports the exact total, and `next` is absent exactly on the
+last page (all earlier pages are full).  Partial because of `hrec` and `hn`, see above. -/
+theorem walk_complete_partial (h : StrictTotal lt) (cfg : Limits) (hcfg : cfg.maxAdvance < u32Max)
+    (hmc : 0 < cfg.maxCandidates)
+    (recode : κ → κ) (matched : List κ) (hnd : matched.Nodup) (hrec : ∀ k ∈ matched, recode k = k)
+    (limit : Nat) (hl : 0 < limit) (hn : matched.length ≤ cfg.maxAdvance + 1) :
+    ∃ pages, walkPages lt cfg recode matched limit (matched.length + 1) none = some pages ∧
+      (pages.map (·.hits)).flatten = sortKeys lt matched ∧
+      (∀ r ∈ pages, r.total = matched.length) ∧ WalkShape pages (min limit cfg.maxCandidates) := by
+  rw [walkPages_min]
+  exact walk_complete_small_limit h cfg hcfg recode matched hnd hrec (min limit cfg.maxCandidates)
+    (by omega) (Nat.min_le_right _ _) hn
+
 /-- every match is returned exactly once: the concatenated pages are a permutation of the
 matches without repetition -/
 theorem walk_each_once_partial (h : StrictTotal lt) (cfg : Limits) (hcfg : cfg.maxAdvance < u32Max)
+    (hmc : 0 < cfg.maxCandidates)
     (recode : κ → κ) (matched : List κ) (hnd : matched.Nodup) (hrec : ∀ k ∈ matched, recode k = k)
-    (limit : Nat) (hl : 0 < limit) (hlc : limit ≤ cfg.maxCandidates)
+    (limit : Nat) (hl : 0 < limit)
     (hn : matched.length ≤ cfg.maxAdvance + 1) :
     ∃ pages, walkPages lt cfg recode matched limit (matched.length + 1) none = some pages ∧
       ((pages.map (·.hits)).flatten).Perm matched ∧ ((pages.map (·.hits)).flatten).Nodup := by
   obtain ⟨pages, hw, hflat, _, _⟩ :=
-    walk_complete_partial h cfg hcfg recode matched hnd hrec limit hl hlc hn
+    walk_complete_partial h cfg hcfg hmc recode matched hnd hrec limit hl hn
   have hp : (sortKeys lt matched).Perm matched := by rw [sortKeys_eq]; exact isort_perm_self matched
   exact ⟨pages, hw, by rw [hflat]; exact hp, by rw [hflat]; exact hp.nodup_iff.mpr hnd⟩
 
@@ -1007,13 +1046,14 @@ theorem ltKeyN_strictTotal (dirs : List Bool) : StrictTotal (ltKeyN dirs) where
 
 /-- `walk_complete_partial` instantiated with the comparator the driver runs -/
 theorem walk_complete_driver_partial (dirs : List Bool) (matched : List (KeyN dirs.length))
-    (hnd : matched.Nodup) (limit : Nat) (hl : 0 < limit) (hlc : limit ≤ Limits.real.maxCandidates)
+    (hnd : matched.Nodup) (limit : Nat) (hl : 0 < limit)
     (hn : matched.length ≤ Limits.real.maxAdvance + 1) :
     ∃ pages, walkPages (ltKeyN dirs) Limits.real id matched limit (matched.length + 1) none = some pages ∧
       (pages.map (·.hits)).flatten = sortKeys (ltKeyN dirs) matched ∧
-      (∀ r ∈ pages, r.total = matched.length) ∧ WalkShape pages limit :=
-  walk_complete_partial (ltKeyN_strictTotal dirs) Limits.real (by decide) id matched hnd
-    (fun _ _ => rfl) limit hl hlc hn
+      (∀ r ∈ pages, r.total = matched.length) ∧
+      WalkShape pages (min limit Limits.real.maxCandidates) :=
+  walk_complete_partial (ltKeyN_strictTotal dirs) Limits.real (by decide) (by decide) id matched hnd
+    (fun _ _ => rfl) limit hl hn
 
 /-! ## D. negative witnesses (decided by the kernel on concrete small inputs) and non-vacuity -/
 
@@ -1035,12 +1075,21 @@ order, three pages of size 2 -/
 example : hitsOf (walkPages ltNat Limits.real id [5, 3, 9, 1, 7] 2 6 none) = some [[1, 3], [5, 7], [9]] := by
   decide
 
-/-- the known finding "large limit": with `MAX_CANDIDATE_SIZE = 2` a request with limit 3 over four
-matches returns three hits and **no** cursor (the real constants are 20000 / 20001 hits) -/
-theorem large_limit_truncates :
-    (page ltNat { maxAdvance := 10, maxCandidates := 2 } [3, 1, 4, 2] none 3).toOption
+/-- the repaired finding "large limit" (before 7ad6649): with `MAX_CANDIDATE_SIZE = 2` a request
+with limit 3 over four matches returned three hits and **no** cursor (real constants: 20000 /
+20001 hits) -/
+theorem legacy_large_limit_truncates :
+    (pageLegacy ltNat { maxAdvance := 10, maxCandidates := 2 } [3, 1, 4, 2] none 3).toOption
       = some { hits := [1, 2, 3], next := none, total := 4 } := by
   decide
+
+/-- …and after the repair: a page of the cap's size with a cursor, and the walk completes -/
+example : (page ltNat { maxAdvance := 10, maxCandidates := 2 } [3, 1, 4, 2] none 3).toOption
+      = some { hits := [1, 2], next := some { key := 2, returned := 2 }, total := 4 } := by
+  decide
+
+example : hitsOf (walkPages ltNat { maxAdvance := 10, maxCandidates := 2 } id [3, 1, 4, 2] 3 5 none)
+    = some [[1, 2], [3, 4]] := by decide
 
 /-- the known finding "f64 sort value": if the key of the last hit of a page does not come back
 unchanged from the cursor (here 2 ↦ 20), the next request fails (`saw_cursor` stays false) -/
